@@ -475,6 +475,9 @@ func SameExpr(info *types.Info, a, b ast.Expr) bool {
 
 // ConstString returns the constant string value of e, if any.
 func ConstString(info *types.Info, e ast.Expr) (string, bool) {
+	if e == ast.Expr(EmptyStringLit) {
+		return "", true
+	}
 	tv, ok := info.Types[e]
 	if !ok || tv.Value == nil || tv.Value.Kind() != constant.String {
 		return "", false
